@@ -169,6 +169,11 @@ def get_variants_filter(sym, forest, types, recursive, start):
         kwargs["types"] = types
     res = node.get_variants(**kwargs)
     sym.cover("called")
+    want_self = bool(types) and "self" in types and start is not None
+    if want_self:
+        sym.check("self-included-once", len([v for v in res if v is node]) == 1)
+        res = [v for v in res if v is not node]
+    real_types = [t for t in types if t != "self"] if types else types
     uids = [v.uid for v in res]
     sym.check("no-duplicates", len(set(uids)) == len(uids))
     sym.check("ordered-by-uid", uids == sorted(uids))
@@ -176,7 +181,8 @@ def get_variants_filter(sym, forest, types, recursive, start):
         if arch is not None:
             sym.check("has-arch[" + v.uid + "]", sym.or_(len(arch) == 0, arch == "src", arch in sorted(v.arches)))
         if types:
-            sym.check("has-type[" + v.uid + "]", v.type in types)
+            # 'self' only ever selects the node the call was made on
+            sym.check("has-type[" + v.uid + "]", v.type in real_types)
     # scope: direct children, or the whole subtree when recursive
     spec = FORESTS[forest]
     top = start
@@ -193,6 +199,8 @@ def get_variants_filter(sym, forest, types, recursive, start):
     sym.check("within-scope", all(u in scope for u in uids))
     if arch is None and not types:
         sym.check("no-filter-returns-everything-in-scope", sorted(uids) == sorted(scope))
+    if arch is None and types and not real_types:
+        sym.check("only-self-requested", uids == [])
 
 
 def jobs(tier, seed):
@@ -215,13 +223,15 @@ def jobs(tier, seed):
     for forest in FORESTS:
         if forest != "empty":
             out.append({"harness": "reload_consistent", "params": {"forest": forest}})
-    type_sets = [None, ["variant"], ["optional", "addon"], ["addon"], ["variant", "optional", "addon", "layered-product"]]
+    type_sets = [None, ["variant"], ["optional", "addon"], ["addon"], ["variant", "optional", "addon", "layered-product"], ["self"], ["self", "addon"]]
     for forest in ("chain", "wide", "seven"):
         starts = [None] + [u for i, u, p, a in FORESTS[forest] if any(pp == u for _, _, pp, _ in FORESTS[forest])]
         for si, start in enumerate(starts):
             for ti, ts in enumerate(type_sets):
                 for rec in (False, True):
-                    if big or (si + ti + rec + seed) % 3 == 0 or (rec and ts is None):
+                    if ts is not None and "self" in ts and start is None:
+                        continue          # 'self' is only meaningful on a variant node
+                    if big or (si + ti + rec + seed) % 3 == 0 or (rec and ts is None) or (ts is not None and "self" in ts):
                         out.append({"harness": "get_variants_filter", "params": {"forest": forest, "types": ts, "recursive": rec, "start": start}})
     return out
 
